@@ -275,7 +275,8 @@ def GS (E : Env α) (g : Gen α) : Prop :=
 
 /-- a new generator -/
 def GF (E : Env α) (fuel : Nat) (g : Gen α) : Prop :=
-  IInv g.st noLimbo ∧ SInv E g.st ∧ BanksEmpty g.st ∧ ∀ s, prologue E fuel g.st = some s → startB s = true
+  IInv g.st noLimbo ∧ SInv E g.st ∧ BanksEmpty g.st ∧
+    ∀ s, prologue E fuel g.st = some s → SInv E s → BanksEmpty s → TInv2 s noT
 
 def GI (E : Env α) (fuel : Nat) (g : Gen α) : Prop :=
   (g.phase = .fresh → GF E fuel g) ∧ (g.phase ≠ .fresh → GS E g)
@@ -400,7 +401,7 @@ theorem next_gi (E : Env α) (hG : RowsNodup E.G) (fuel : Nat) (g g' : Gen α) (
       have hE' := banksEmpty_of_bk hbk hE
       have hS' := prologue_sinv E fuel _ _ hp hS
       have hH' := prologue_hinv E hG fuel _ _ hp hI
-      have hT' := tinv2_of_start hS' hE' (hst s hp)
+      have hT' := hst s hp hS' hE'
       have hN' : NInv E s noL := ninv_of_empty hE'
       obtain ⟨a, b, c⟩ := nextLoop_gs E fuel _ _ _ _ _ _ _ h hH' hT' hN' (fun fr he => by simp at he)
       have hne := nextLoop_not_fresh E fuel _ _ _ _ _ _ _ h
@@ -422,7 +423,7 @@ theorem next_gi (E : Env α) (hG : RowsNodup E.G) (fuel : Nat) (g g' : Gen α) (
     exact ⟨⟨fun he => absurd he hne, fun _ => a⟩, b, c⟩
 
 theorem gen_new_gi (E : Env α) (fuel : Nat) (g : Gen α) (h : Gen.new E = some g)
-    (hst : ∀ s, prologue E fuel g.st = some s → startB s = true) : GI E fuel g := by
+    (hst : ∀ s, prologue E fuel g.st = some s → SInv E s → BanksEmpty s → TInv2 s noT) : GI E fuel g := by
   unfold Gen.new at h
   cases hi : St.init E with
   | none => simp [hi] at h
